@@ -519,6 +519,30 @@ theorem C04_rows_independent_scanner_partial (p : Nat) (m : Meta) (rs : List (Li
   simpa [typedRows, it, iterOf] using this
 
 open RowsReuse Marshal in
+/-- the same through MapScan used with pointers (`row := map[string]interface{}{"c": &x, …}` — a NEW map on every
+    call, the SAME variables; helpers.go 418-433): when RowData names every destination (every column has a Go type)
+    and the names are distinct, the loop delivers exactly what the Scan loop delivers -/
+theorem C04_rows_independent_mapscan_partial (p : Nat) (m : Meta) (rs : List (List Cell)) (tys : List GoTy)
+    (vals0 : List GoVal) (names : List FrameRead.Bytes)
+    (hcols : ∀ n g, m.cols ≠ .omitted n g) (hwc : wfCols m.cols = true) (hw : wfRows (colTypes m.cols) rs = true)
+    (hnames : rowDataSpec m.cols = some names) (hd : names.Nodup)
+    (hW : totalWidth (colTypes m.cols) = tys.length) (hv : vals0.length = tys.length)
+    (hins : ∀ row ∈ typedRows (colTypes m.cols) rs, insensitive tys (rowCalls 0 row) = true) :
+    let it := iterOf (viewMeta m) rs.length (eRows rs)
+    (mapScanAllT p tys (rs.length + 1) it vals0).map (fun r => (r.1, r.2.failed, r.2.pos))
+      = (deliver p tys ((typedRows (colTypes m.cols) rs).map (rowCalls 0))).map
+          (fun lf => (lf.1, lf.2, (lf.1.length : Int))) := by
+  intro it
+  have hrd : rowDataColumns (viewCols m.cols) = .ok names := by
+    rw [rowDataColumns_view m.cols hwc, hnames]
+  have hn : rowDataNames it.md.columns = some names := by
+    simp [it, iterOf, viewMeta, rowDataNames, hrd]
+  have hl : names.length = tys.length := by
+    rw [← hW]; exact rowDataColumns_length (viewCols m.cols) (colTypes m.cols) names (colsMatch_view m.cols) hrd
+  rw [mapScanAllT_eq p tys names _ it vals0 hn hl hd]
+  exact C04_rows_independent_partial p m rs tys vals0 hcols hw hW hv hins
+
+open RowsReuse Marshal in
 /-- ROWS ARE INDEPENDENT, without an excluded condition, for every destination list made of the Go types whose
     Unmarshal never looks at the destination (`statelessTy`: `*string`, `*int…`, `*bool`, `*float…`, `*time.Time`,
     `*gocql.UUID`, `*[16]byte`, `*big.Int`, `*inf.Dec`, `*net.IP`, `*gocql.Duration`, named `[]byte` types, `*[]T`,
